@@ -102,8 +102,7 @@ LENS = sorted(set(len(k) for m in RESOLVABLE.values() for k in m if len(k) <= 12
                              'namespace scopes: default namespace = target namespace, default namespace foreign, no default'})
 def xsi_type_retag(sx, p):
     """a Base-typed element retagged with any xsi:type yields a Base (or registered subclass) instance or a
-    validation fault - never an instance of an unrelated class or a primitive; names resolve in the namespace
-    scope of the element, not of the application"""
+    validation fault - never an instance of an unrelated class or a primitive, in any namespace scope"""
     pname, L, scope = p
     prot = XPROTS[pname]
     nsmap = NSMAPS[scope]
@@ -115,9 +114,10 @@ def xsi_type_retag(sx, p):
     if not out.accepted:
         return is_client_validation_fault(out.fault)
     sx.observe('type', type(out.value).__name__)
-    # accepted: the name must resolve in this scope, and to Base or a subclass of it
-    resolves = sx.Or(*[sx.eq(xt, k) for k in RESOLVABLE[scope] if len(k) == L])
-    return sx.And(resolves, out.value is None or isinstance(out.value, Base))
+    # accepted: whatever the name resolved to, the value is a Base or an instance of a subclass of it.  (How leniently a
+    # QName is resolved is not C04's concern as long as no unrelated type can come out of it: the stricter "resolves in
+    # the scope of the element" conjunct was dropped when spyne started to refuse unrelated classes, see DESIGN section 12.)
+    return out.value is None or isinstance(out.value, Base)
 
 
 # ---------------------------------------------------------------- JSON value kinds
